@@ -411,6 +411,27 @@ def _scope_rule(repo, rep):
               "root[name] = value" in text, "R05.6", sgl.qualname,
               "set_global writes the shared root", construct="set_global",
               where=L.where(sgl), detail=text)
+    gi = ci.methods.get("__getitem__")
+    t = " ".join(src(x) for x in gi.node.body)
+    rep.check("value = self.get(key, marker)" in t and
+              "if value is marker: raise KeyError(key)" in t and
+              "return value" in t, "R05.6", gi.qualname,
+              "scope[key] goes through the layered lookup and raises "
+              "KeyError only if neither layer has it", construct="getitem",
+              where=L.where(gi), detail=t)
+    co = ci.methods.get("__contains__")
+    t = " ".join(src(x) for x in co.node.body)
+    rep.check("return self.get(key, marker) is not marker" in t, "R05.6",
+              co.qualname, "'key in scope' sees both layers",
+              construct="contains", where=L.where(co), detail=t)
+    it_ = ci.methods.get("__iter__")
+    t = " ".join(src(x) for x in ast.walk(it_.node)
+                 if isinstance(x, ast.stmt))
+    rep.check("yield from super().__iter__()" in t and
+              "for key in root:" in t and
+              "if not super().__contains__(key): yield key" in t, "R05.6",
+              it_.qualname, "iteration yields local names, then root names "
+              "that are not shadowed", construct="iter", where=L.where(it_))
     gn = ci.methods.get("get_name")
     text = " ".join(src(s) for s in gn.node.body)
     rep.check("raise NameError(key)" in text and
